@@ -21,6 +21,8 @@ NODE_CONFIGS_Q = [(('S1', 'none'),), (('S1', 'gpu'),), (('S1', 'none'), ('S1', '
                   (('S1', 'gpu'), ('S2', 'nvme+shared'))]
 NODE_CONFIGS_T = NODE_CONFIGS_Q + [(('S1', 'none'), ('S2', 'gpu'), ('S1', 'nvme+shared')), (('S2', 'none'), ('S2', 'none'), ('S1', 'gpu'))]
 # node sizing variants (third member of a node entry): explicit capacities (default), an instance-type hint only, or unsized
+# a P4 switch among the nodes (it takes no services here): first, last and between two VMs in the description
+NODE_CONFIGS_P4 = [(('S1', 'p4'),), (('S1', 'p4'), ('S1', 'none')), (('S1', 'gpu'), ('S2', 'p4')), (('S1', 'none'), ('S2', 'p4'), ('S2', 'nvme+shared'))]
 NODE_CONFIGS_SIZING = [(('S1', 'gpu', 'hints'),), (('S1', 'none'), ('S2', 'nvme+shared', 'unsized')), (('S2', 'gpu', 'hints'), ('S1', 'none'))]
 KINDS = ('bridge', 'bridge_vlan', 'v4ext', 'v6ext', 'pm_in', 'pm_out')   # bridge_vlan: its service port is labelled, but not named
 CAPS = [(2, 8, 10), (4, 16, 100), (8, 32, 500)]
@@ -34,6 +36,9 @@ def build(nodes_cfg, services, node_order, svc_order, facility):
         site, mix = nodes_cfg[k][:2]
         sizing = nodes_cfg[k][2] if len(nodes_cfg[k]) > 2 else 'caps'
         c, r, d = CAPS[k]
+        if mix == 'p4':
+            t.add_switch(name=f'n{k}', site=site)
+            continue
         if sizing == 'caps':
             n = t.add_node(name=f'n{k}', site=site, capacities=Capacities(core=c, ram=r, disk=d))
         elif sizing == 'hints':
@@ -82,7 +87,7 @@ def tally(t):
         v = raw.nodes[nid].get(prop)
         return json.loads(v) if v else {}
     out = dict(cpu=[], ram=[], disk=[], bw=[], comp=[], sites=set(), fac=[], v4=set(), v6=set(), mirror_out=set(), mirror_all=set(),
-               vms=0, cores=0, services=[])
+               vms=0, cores=0, services=[], switches=0)
     in_slice = set()
     for sp in raw.by_class(CP):
         if raw.typ(sp) == 'ServicePort':
@@ -104,6 +109,8 @@ def tally(t):
             out['disk'].append(caps.get('disk', 0))
         if d.get('Site'):
             out['sites'].add(d['Site'])
+        if d['Type'] == 'Switch':
+            out['switches'] += 1
         if d['Type'] == 'VM':
             out['vms'] += 1
             out['cores'] += caps.get('core', 0)
@@ -206,8 +213,10 @@ def eval_slice(case):
                 v.append(('tally/mirror-site-missing', f'mirror sites {sorted(got_m)} do not name {sorted(tl["mirror_out"])} (port mirrors of ports outside the slice) {o} {ctx}'))
             if got_m - tl['mirror_all']:
                 v.append(('tally/mirror-site-extra', f'mirror sites {sorted(got_m)} but mirrors exist only at {sorted(tl["mirror_all"])} {o} {ctx}'))
-            if raw_attrs.get(AZ.RESOURCE_TYPE) != ['sliver']:
-                v.append(('tally/resource-type', f'{raw_attrs.get(AZ.RESOURCE_TYPE)} {o} {ctx}'))
+            # a slice holding a P4 switch is a request for one, wherever the switch is stored
+            want_rt = ['switch-p4'] if tl['switches'] else ['sliver']
+            if raw_attrs.get(AZ.RESOURCE_TYPE) != want_rt:
+                v.append(('tally/resource-type', f'{raw_attrs.get(AZ.RESOURCE_TYPE)} expected {want_rt} {o} {ctx}'))
             for k2, val in raw_attrs.items():
                 if len(val) == 0:
                     v.append(('pdp/empty-attribute', f'{k2} listed with no values {o} {ctx}'))
@@ -230,8 +239,8 @@ def eval_slice(case):
             if json.loads(pdp_json) != pdp:
                 v.append(('pdp/json-vs-dict', ctx))
             # accounting summary
-            if la['vm_count'] != tl['vms'] or la['core_count'] != tl['cores'] or la['p4_count'] != 0:
-                v.append(('accounting/compute', f"vms {la['vm_count']}/{tl['vms']} cores {la['core_count']}/{tl['cores']} p4 {la['p4_count']} {o} {ctx}"))
+            if la['vm_count'] != tl['vms'] or la['core_count'] != tl['cores'] or la['p4_count'] != tl['switches']:
+                v.append(('accounting/compute', f"vms {la['vm_count']}/{tl['vms']} cores {la['core_count']}/{tl['cores']} p4 {la['p4_count']}/{tl['switches']} {o} {ctx}"))
             want_c = {}
             for c in tl['comp']:
                 want_c[c] = want_c.get(c, 0) + 1
@@ -257,12 +266,14 @@ def eval_slice(case):
 
 def descriptions(tier):
     out = []
-    cfgs = (NODE_CONFIGS_Q if tier == 'quick' else NODE_CONFIGS_T) + NODE_CONFIGS_SIZING
+    cfgs = (NODE_CONFIGS_Q if tier == 'quick' else NODE_CONFIGS_T) + NODE_CONFIGS_SIZING + NODE_CONFIGS_P4
     maxs = 3 if tier == 'quick' else 4
     for ci, cfg in enumerate(cfgs):
-        opts = [(kd, k) for k in range(len(cfg)) for kd in KINDS]
+        opts = [(kd, k) for k in range(len(cfg)) for kd in KINDS if cfg[k][1] != 'p4']
         for size in range(0, maxs + 1):
             if tier == 'quick' and cfg in NODE_CONFIGS_SIZING and size > 2:
+                continue
+            if cfg in NODE_CONFIGS_P4 and size > (1 if tier == 'quick' else 2):
                 continue
             if tier == 'quick' and size == 3:
                 # quick: three services (up to 12 creation orders) only on the two-site configuration and only for the
